@@ -147,6 +147,20 @@ impl MemTable {
 		self.skiplist.size() as usize
 	}
 
+	/// Whether `batch` is certain to fit into an empty memtable of
+	/// `arena_capacity` bytes. A batch for which this is false may fail half-way
+	/// through [`MemTable::add`] even right after a rotation.
+	pub(crate) fn batch_fits_empty(batch: &Batch, arena_capacity: usize) -> bool {
+		let needed: usize = batch
+			.entries
+			.iter()
+			.map(|e| {
+				skiplist::max_entry_footprint(e.key.len(), e.value.as_ref().map_or(0, |v| v.len()))
+			})
+			.sum();
+		skiplist::EMPTY_FOOTPRINT + needed <= arena_capacity
+	}
+
 	/// Adds a batch of operations to the memtable.
 	/// This includes appending the batch to the Write-Ahead Log (WAL),
 	/// applying the batch to the in-memory table, and updating the memtable
